@@ -129,7 +129,7 @@ def main(tier, replay=None):
     if quick and len(fn_cases) > 9000:
         fn_cases = rng.sample(fn_cases, 9000)
     fn_cases += [rand_case(rng) for _ in range(4000 if quick else 100000)]
-    obs = fncases.observe(lib, fn_cases)
+    obs = fncases.observe(lib, fn_cases, twins=True)
     so = suite.observations({'LEFT','RIGHT','MID','LEN','UPPER','LOWER','PROPER','TRIM','CLEAN','SUBSTITUTE','CONCATENATE','CONCAT','TEXTJOIN','CHAR','CODE','LEFTB','RIGHTB','MIDB','LENB'}, len(obs) + 1)   # the same functions as the repository's own tests call them
     run.extra['calls_from_repository_tests'] = len(so)
     obs += so
